@@ -97,19 +97,21 @@ class CFG:
         self._dom = dom
         return dom
 
-    def postdominators(self):
+    def postdominators(self, exclude_exits=()):
         """pdom[b] = set of blocks that every path from b to a return passes (b included); blocks that reach no
-        return (diverging) are their own only post-dominator."""
-        if getattr(self, '_pdom', None) is not None:
+        return (diverging) are their own only post-dominator.  `exclude_exits`: return blocks to be treated as if the
+        path died there (error returns, when only the successful runs matter)."""
+        exclude_exits = frozenset(exclude_exits)
+        if not exclude_exits and getattr(self, '_pdom', None) is not None:
             return self._pdom
         reach = self.reachable([0])
-        exits = [r for r in self.returns if r in reach]
+        exits = [r for r in self.returns if r in reach and r not in exclude_exits]
         live = set()
         work = list(exits)
         while work:
             b = work.pop()
-            if b in live:
-                continue
+            if b in live or b in exclude_exits:
+                continue        # (a block in exclude_exits is a dead end: nothing behind it counts as reaching an exit)
             live.add(b)
             work.extend(p for p in self.pred[b] if p in reach)
         pdom = {b: set(live) for b in live}
@@ -130,13 +132,14 @@ class CFG:
                     changed = True
         for b in reach:
             pdom.setdefault(b, {b})
-        self._pdom = pdom
+        if not exclude_exits:
+            self._pdom = pdom
         return pdom
 
-    def controllers(self, c):
+    def controllers(self, c, exclude_exits=()):
         """Blocks whose branch decides whether c executes (control dependence): c post-dominates one successor of b
         but does not post-dominate b itself."""
-        pd = self.postdominators()
+        pd = self.postdominators(exclude_exits)
         out = []
         for b in range(self.n):
             if len(self.succ[b]) < 2 or b == c:
